@@ -19,13 +19,14 @@ type File struct {
 //	Kind "uint"    opcode 2 + Uint written as a length
 //	Kind "float"   opcode 3 + float32(F) as 4 raw little-endian bytes
 //	Kind "double"  opcode 4 + F as 8 raw little-endian bytes
-//	Kind "string"  opcode 5 + Str as a raw RDB string
+//	Kind "string"  opcode 5 + Str as an RDB string in the given Form (default raw)
 type ModOp struct {
 	Kind string
 	Int  int64
 	Uint uint64
 	F    float64
 	Str  []byte
+	Form StrForm // Kind "string": how the string is stored (a server integer-encodes short numeric strings and compresses long ones)
 }
 
 // NewFile starts a file with the magic "REDIS" and the 4-digit version.
@@ -114,7 +115,11 @@ func (f *File) ModuleAux(moduleID uint64, ops []ModOp) {
 			f.buf.Write(appendU64LE(nil, math.Float64bits(op.F)))
 		case "string":
 			f.putLen(5, LenCanonical)
-			f.putString(op.Str, LenCanonical)
+			if enc, err := appendString(nil, op.Str, op.Form, LenCanonical); err == nil {
+				f.buf.Write(enc)
+			} else {
+				f.putString(op.Str, LenCanonical)
+			}
 		default:
 			panic(fmt.Sprintf("rdbref: unknown ModOp kind %q", op.Kind))
 		}
